@@ -18,10 +18,12 @@ so it covers every flip, truncation, deletion and every combination of them.
 Parameters: `hash`, `dec`, `zdec` as in C02; `decUnp` (decrypt + `decompressUnpacked` of an
 unpacked file); `parseTree`, `parseSnap` (JSON decoding). Core Lean only.
 
-Simplifications (documented in docs/C03.md): `checkPackInner` streams the pack once and feeds all
-indexed blobs through one iterator; here each indexed blob is decoded from its own byte range
-(same bytes when the index has no overlaps; overlaps are an extra error in the real code). The
-header-versus-index comparison of `checkPackInner` is C06/C33's subject and not modelled.
+`checkAll` decodes each indexed blob from its own byte range; `checkAllStream` is the closer
+transcription of `checkPackInner` (ONE pass over the file with all indexed blobs of the pack, sorted,
+through one iterator — gaps are skipped, overlaps are an error — then the whole-file hash);
+`Props.C03.checkAllStream_nil` proves that a clean streaming verdict implies a clean ranged one, so
+all theorems hold for the streaming check. The header-versus-index comparison of `checkPackInner`
+is C06/C33's subject and not modelled.
 -/
 namespace Restic.Model.Corrupt
 open Restic.Model.Store
@@ -153,6 +155,37 @@ def checkAll (C : Codec) (r : Repo) (fuel : Nat) : List CheckErr :=
   ((r.index.filter fun c => !(r.packs.any fun p => p.1 == c.pack)).map fun c => .packMissing c.pack) ++
   ((r.packs.filter fun p => C.hash p.2 != p.1).map fun p => .packHash p.1) ++
   ((r.index.filter fun c => (decodeEntry C r c).isNone).map fun c => .blobData c.pack c.blob.id) ++
+  (r.snaps.flatMap fun s =>
+    match loadSnapRaw C s with
+    | none => [.snapLoad s.1]
+    | some root => if walk C r fuel root then [] else [.structure s.1])
+
+/-! ### the same verdict with `checkPackInner`'s single streaming pass -/
+
+/-- run the pack's iterator to its end: true iff every value is clean and EOF is reached
+    (`fuel` = number of blobs + 1) -/
+def streamClean (C : Codec) : Nat → Iter → Bool
+  | 0, _ => false
+  | fuel + 1, it =>
+    match next C.hash C.dec C.zdec it with
+    | (.eof, _) => true
+    | (.value _ _ none, it') => streamClean C fuel it'
+    | _ => false                   -- a blob error (collected in `blobErrors`) or `partialReadError`
+
+/-- `blobs.Sort()` of the index entries of one pack -/
+def packBlobsSorted (r : Repo) (pack : ID) : List Blob :=
+  ((r.index.filter fun c => c.pack == pack).map fun c => c.blob).mergeSort fun a b => a.offset ≤ b.offset
+
+/-- `checkPackInner`: one pass over the file from offset 0 with all indexed blobs, then the
+    whole-file hash against the name -/
+def checkPackStream (C : Codec) (r : Repo) (p : ID × Bytes) : Bool :=
+  let blobs := packBlobsSorted r p.1
+  streamClean C (blobs.length + 1) { rd := p.2, cur := 0, blobs := blobs } && C.hash p.2 == p.1
+
+def checkAllStream (C : Codec) (r : Repo) (fuel : Nat) : List CheckErr :=
+  (if r.indexErr then [.indexLoad] else []) ++
+  ((r.index.filter fun c => !(r.packs.any fun p => p.1 == c.pack)).map fun c => .packMissing c.pack) ++
+  ((r.packs.filter fun p => !checkPackStream C r p).map fun p => .packHash p.1) ++
   (r.snaps.flatMap fun s =>
     match loadSnapRaw C s with
     | none => [.snapLoad s.1]
